@@ -56,6 +56,31 @@ def post(cases, rep, pool):
                            "expected": "the program with the constant behaves like the program with its value"},
                           {"length-value", "ctx:" + ctx, "len:" + e}, name="length-value")
     STATS["length_pairs"] = len(pairs)
+    # the constant against its own expression where the oracle is silent (operands outside the exact domain, MOD / AND / OR
+    # beyond the INTEGER range ...): CONST C = e : PRINT C and PRINT (e) are generated side by side - the constant is
+    # refused with error x exactly when the expression fails with x at run time, and otherwise both print the same
+    def sig(o, is_const):
+        if o["status"] == "reject":
+            return ("fails", o["code"]) if is_const and o["code"] else ("reject",)
+        if o["status"] == "err":
+            return ("fails", o["code"]) if not o["out"] else ("fails-later", o["code"], tuple(o["out"]))
+        return (o["status"], tuple(o["out"]))
+    npairs = 0
+    for x, y in zip(cases, cases[1:]):
+        fx, fy = x["fam"], y["fam"]
+        if not ((fx == "const:global" and fy == "const:runtime") or (fx.startswith("mixed:const/") and fy == fx.replace("const", "runtime"))):
+            continue
+        if "skip" not in (x.get("verdict"), y.get("verdict")) or "obs" not in x or "obs" not in y:
+            continue
+        npairs += 1
+        a, b_ = sig(x["obs"], True), sig(y["obs"], False)
+        if a != b_:
+            rep.violation({"family": "const-vs-expression", "text_const": x["text"], "text_expression": y["text"],
+                           "observed_const": {k: x["obs"].get(k) for k in ("status", "code", "out")},
+                           "observed_expression": {k: y["obs"].get(k) for k in ("status", "code", "out")},
+                           "expected": "the constant is refused with the error its expression raises at run time, or both print the same"},
+                          {"const-vs-expression", "fam:" + fx}, name="const-vs-expression")
+    STATS["const_vs_expression_pairs_outside_the_oracle"] = npairs
 
 
 STATS = {}
@@ -88,4 +113,5 @@ def run(tier, replay):
         assumptions=[
             "expressions leaving the exactly representable domain are skipped",
             "a CONST whose expression fails is rejected statically with the same error kind at the CONST statement",
-        ], nontrivial=nontrivial, post=post, extra=lambda rep, pool, tier: {"info": {"length_value_pairs": STATS.get("length_pairs", 0)}})
+        ], nontrivial=nontrivial, post=post, extra=lambda rep, pool, tier: {"info": {"length_value_pairs": STATS.get("length_pairs", 0),
+                                                       "const_vs_expression_pairs_outside_the_oracle": STATS.get("const_vs_expression_pairs_outside_the_oracle", 0)}})
